@@ -46,10 +46,13 @@ theorem others_mgrComplete (c : Ctx) (s : St) (obs : List Obs) (o : Outcome) (i 
   unfold mgrComplete
   split
   · exact others_mgrReturn _ _ _ _ _ h
-  · unfold cbThen
+  · unfold cbCall
     split
     · exact others_mgrReturn _ _ _ _ _ h
-    · exact others_yieldNow _ _ _ _ _ h
+    · unfold cbThen
+      split
+      · exact others_mgrReturn _ _ _ _ _ h
+      · exact others_yieldNow _ _ _ _ _ h
 
 /-- `_stop_coro_tasks(*self._coro_tasks)`: every task except the one running the cleanup is marked afterwards -/
 theorem C13_cleanup_marks_every_task (s : St) (t i : Nat) (tk : Task) (h : s.tasks[i]? = some tk) (hne : i ≠ t) :
